@@ -73,7 +73,9 @@ def property_checks(rec, rows, mode):
         if rl["freq"] == "dt" and rl["kind"] in ("assign", "ode") and not others and rl["tgt"] not in touched and mode != "deterministic":
             c_self = rl["c"][rl["tgt"] - 1]
             only_self = all(c == 0 for i, c in enumerate(rl["c"]) if i != rl["tgt"] - 1)
-            if only_self and rl["c0"] > 0 and ((rl["kind"] == "assign" and c_self == 1) or (rl["kind"] == "ode" and c_self == 0)):
+            # (in a lineage single cell an ode rule integrates with the interface's own dt, which the lineage entry
+            #  points do not tie to the time grid: there only assignment counters are judged)
+            if only_self and rl["c0"] > 0 and ((rl["kind"] == "assign" and c_self == 1) or (rl["kind"] == "ode" and c_self == 0 and mode != "lineage")):
                 col = [row[rl["tgt"] - 1] for row in rows]
                 for i in range(1, nt - 1):
                     if abs((col[i + 1] - col[i]) - rl["c0"]) > 1e-9:
@@ -184,7 +186,23 @@ def extra_modes(rec, fresh, tp, job, rules):
     if True:
         if True:
             if True:
-                for mode in ("deterministic", "volume", "delay"):
+                for mode in ("deterministic", "volume", "delay", "lineage"):
+                    if mode == "lineage":
+                        # a LineageModel with the same reactions and rules, one cell, no growth or division
+                        from bioscrape.lineage import LineageModel, py_SimulateSingleCell
+                        from ..build import build as _build
+                        ml, _ = _build(rec["prog"], x0=[[v, 1] for v in rec["x0"]], ns=rec["ns"], rules=rules, model_cls=LineageModel)
+                        brandom.py_seed_random(job["seed"] + 7 * len(rec["steps"]))
+                        df = py_SimulateSingleCell(tp, Model=ml, safe=rec["safe"])
+                        rows2 = [[float(df["S%d" % (i + 1)].iloc[k]) for i in range(rec["ns"])] for k in range(df.shape[0])]
+                        if len(rows2) != len(tp):
+                            res = {"ok": False, "what": "lineage-rows", "detail": "%d rows for %d time points" % (len(rows2), len(tp))}
+                            break
+                        pc = property_checks(rec, rows2, mode)
+                        if pc:
+                            res = {"ok": False, "what": pc[0], "detail": pc[1] + "; rules %r" % (rules,)}
+                            break
+                        continue
                     m2, cols2 = fresh()
                     brandom.py_seed_random(job["seed"] + len(rec["steps"]))
                     if mode == "deterministic":
@@ -246,11 +264,11 @@ def run(tier):
     cov = {"states": g1.generated + g2.generated, "transitions": g1.generated + g2.generated, "traces_validated_against_impl": ok,
            "samples": [{"prog": s.get("prog"), "rules": s.get("rules"), "x0": s.get("x0"), "steps": s.get("steps", [])[:6], "rows": s.get("rows")}],
            "behaviours_replayed": len(recs), "behaviours_exact": ok, "rules_by_kind": kinds, "rules_by_frequency": freqs,
-           "reaction_free_models": len(g2.records), "modes_property_checked": ["deterministic", "volume", "delay"], "checker_cmd": g1.cmd}
+           "reaction_free_models": len(g2.records), "modes_property_checked": ["deterministic", "volume", "delay", "lineage single cell"], "checker_cmd": g1.cmd}
     common.write_evidence(PROP, tier, cov, time.time() - t0, len(v.alarms) + sum(v.known_hit.values()),
                           assumptions=["rule right-hand sides are affine with integer coefficients (general expressions are decided by C02); ode rates are integer multiples of 1/dt",
                                        "how often a rule runs at the initial instant is not part of the claim: start/time rules do not read their own target",
-                                       "lineage single-cell simulation is covered by C19's check"])
+                                       "lineage single cells are run without growth, division or death rules (those are C19's subject)"])
     return rc
 
 
